@@ -517,6 +517,12 @@ func valueSources(p *Prog, caller *ssa.Function, v ssa.Value, depth int, seen ma
 			}
 		}
 	case *ssa.Phi:
+		// (a loop-carried value refers to itself: each phi is expanded once)
+		key := fmt.Sprintf("phi:%p", x)
+		if seen[key] {
+			return nil
+		}
+		seen[key] = true
 		var out []string
 		for _, e := range x.Edges {
 			out = append(out, valueSources(p, caller, e, depth+1, seen)...)
